@@ -19,6 +19,7 @@ import (
 
 	"verif/harness/bub"
 	"verif/harness/msgnet"
+	"verif/harness/perturb"
 	"verif/harness/vh"
 )
 
@@ -451,6 +452,12 @@ const liveBound = 30 * time.Minute
 func streamRun(r *vh.Runner, c *vh.Case, i int) {
 	rng := vh.NewRand(r.Seed, "c08", i)
 	sched := genSchedule(rng)
+	// in half of the cases the instrumented points yield (seeded), so that
+	// readers, the muxer's receiver and the senders interleave differently
+	if strength := rng.Pick(0, 0, 30, 60); strength > 0 {
+		pt := perturb.Install(r.Seed^uint64(i)*613, false, strength)
+		defer pt.Remove()
+	}
 	mp := newMuxPair(3 * time.Hour)
 	defer mp.stop()
 	mon := &streamMonitor{c: c, seed: r.Seed, sched: sched.Class}
